@@ -4,7 +4,9 @@ from pyvc.check import Plan
 import contracts.binpacking  # noqa: F401
 import contracts.tsp  # noqa: F401
 import contracts.qap  # noqa: F401
+import contracts.objectives  # noqa: F401
 import bounded.bl_reference  # noqa: E402
+import bounded.objectives_oracle  # noqa: E402
 
 E1 = "moptipyapps.binpacking2d.encodings.ibl_encoding_1"
 E2 = "moptipyapps.binpacking2d.encodings.ibl_encoding_2"
@@ -21,6 +23,25 @@ PLANS["C01"] = Plan(
     bounded=[bounded.bl_reference.harness_feasible],
     trusted=["E1: int_range_to_dtype returns a type containing the requested range",
              "E2: moptipy SignedPermutations keeps the multiset of item ids (x[k] != 0, |x[k]| <= n_different_items)"],
+)
+
+OB = "moptipyapps.binpacking2d.objectives."
+_OBJ = [OB + f"{n}:{n}" for n in ("bin_count_and_last_empty", "bin_count_and_empty", "bin_count_and_last_small",
+                                  "bin_count_and_small", "bin_count_and_last_skyline", "bin_count_and_lowest_skyline")]
+_PK = {"IDX_BIN": 1, "IDX_LEFT_X": 2, "IDX_BOTTOM_Y": 3, "IDX_RIGHT_X": 4, "IDX_TOP_Y": 5}
+PLANS["C02"] = Plan(
+    "C02", "other",
+    functions=_OBJ,
+    lemmas=["count_zero", "count_le", "area_zero", "area_le", "mul_le", "mul_le2"],
+    consts=_PK,
+    bounded=[bounded.objectives_oracle.harness],
+    explanation="proved: the four count/area kernels equal their spec functions (maxbin, count_in, area_in; minimum over bins "
+                "as attained lower bound) for arbitrary row order and sparse bins, no overflow, scratch write-before-read; "
+                "the two skyline kernels: memory safety, no overflow, termination, value within [(bins-1)*A, bins*A]. "
+                "bounded: all seven objective classes vs an independent recomputation incl. area under the skyline, "
+                "declared bounds, to_bin_count and dominance (not counted as proved)",
+    assumptions=["a packing has fewer than 2**31 rows (n*n and n*bin_area fit in int64)",
+                 "skyline value = integral of the skyline: bounded oracle only", "bounds clause rests on C03 (lower_bound_bins)"],
 )
 
 PLANS["C14"] = Plan(
@@ -60,6 +81,13 @@ PLANS["C05"] = Plan(
 
 
 META = {
+    "C02": {"text": "four of the six njit objective kernels proved equal to recursive spec functions (bins, item count, covered "
+                    "area; least filled bin as attained minimum) for arbitrary row order; skyline kernels proved safe, "
+                    "overflow-free, terminating and within range; the documented skyline value, the declared bounds, "
+                    "to_bin_count and dominance are checked by a bounded oracle over generated feasible packings",
+            "note": "level 'other': mixed proof + bounded; bounded part is labelled and never counted in 'discharged'",
+            "technique": "contract-based deductive verification (recursive spec functions, quantified definitional axioms, "
+                         "inductive lemmas) + bounded run-time oracle"},
     "C01": {"text": "all six decoder functions proved against contracts for every instance/permutation/dtype: inside-bin, "
                     "pairwise non-overlap per bin, id/size/rotation, gap-free bins (ghost witnesses), bin count, every store "
                     "within the storage type; bounded run of the public decode() as replay vehicle",
